@@ -220,7 +220,15 @@ async fn run_one(i: usize, b: Value) -> anyhow::Result<Value> {
     let mut cx = Ctx { addr, rx: HashMap::new(), seen_keys: BTreeSet::new() };
     let steps = b["steps"].as_array().cloned().unwrap_or_default();
     let paging = !steps.iter().any(|s| s["op"] == "listen" || s["op"] == "subscribe");
+    let t0 = std::time::Instant::now();
+    let mut slept_ms: i64 = 0;
     for (k, s) in steps.iter().enumerate() {
+        // real clock: a long poll's deadline is model time x 400 ms.  While a short poll is pending, the steps between two
+        // ticks must run within a fraction of a unit; when the process fell behind (a loaded machine) the rest of the
+        // behaviour says nothing about the code and is abandoned, not judged
+        if !cx.rx.is_empty() && t0.elapsed().as_millis() as i64 - slept_ms > UNIT_MS / 2 {
+            return Ok(json!({"kind":"result","i":i,"ok":true,"inconclusive":format!("schedule slipped at step {}", k)}));
+        }
         match s["op"].as_str().unwrap() {
             "publish" => {
                 let key = key_of(&s["k"]);
@@ -254,7 +262,12 @@ async fn run_one(i: usize, b: Value) -> anyhow::Result<Value> {
                 cx.addr.send(ConfigCmd::LISTENER(items_of(&s["items"]), tx, deadline)).await??;
             }
             "tick" => {
-                tokio::time::sleep(std::time::Duration::from_millis((s["units"].as_i64().unwrap() * UNIT_MS) as u64)).await;
+                // (absolute schedule: the tick ends at the model time it stands for)
+                slept_ms += s["units"].as_i64().unwrap() * UNIT_MS;
+                let el = t0.elapsed().as_millis() as i64;
+                if slept_ms > el {
+                    tokio::time::sleep(std::time::Duration::from_millis((slept_ms - el) as u64)).await;
+                }
             }
             "subscribe" => {
                 let r = cx.addr.send(ConfigCmd::Subscribe(items_of(&s["items"]), Arc::new(s["client"].as_str().unwrap().to_string()))).await??;
